@@ -1,4 +1,4 @@
-import GcArena.Proofs.Quiet
+import GcArena.Proofs.LogRun
 /-!
 # C05 — Weak pointers: upgrade is safe, never spuriously fails, never keeps values alive
 
@@ -85,9 +85,30 @@ theorem upgrade_condemned_fails (c : Ctx) (t : Nat) (o : Obj) (ho : c.heap.get t
   · rfl
   · simp [hp, hc]
 
-/-! Stated in full, proved elsewhere / still open:
-    `is_dropped` exactness and stability is `C04.is_dropped_exact` (log invariant);
-    "a weak pointer never keeps its target alive" is `C02.exact` (reachability is strong only). -/
+theorem run_append (a : Arena) (o1 o2 : List Op) : a.run (o1 ++ o2) = (a.run o1).run o2 := by
+  induction o1 generalizing a with
+  | nil => rfl
+  | cons op o1 ih => simp only [List.cons_append, Arena.run]; exact ih _
+
+/-- `is_dropped` reports exactly whether the target's destructor has run … -/
+theorem is_dropped_exact (n : Nat) (ops : List Op) (i : Nat) (o : Obj)
+    (ho : ((Arena.new n).run ops).ctx.heap.get i = some o) :
+    o.live = false ↔ Event.dropped i ∈ ((Arena.new n).run ops).ctx.log :=
+  ⟨(linv_run n ops).deadDropped i o ho, fun h => (linv_run n ops).droppedDead i h o ho⟩
+
+/-- … and never reverts: once destructed, whatever happens later, any block still allocated under
+    that id has its `live` flag clear. -/
+theorem is_dropped_never_reverts (n : Nat) (ops later : List Op) (i : Nat)
+    (h : Event.dropped i ∈ ((Arena.new n).run ops).ctx.log) (o : Obj)
+    (ho : ((Arena.new n).run (ops ++ later)).ctx.heap.get i = some o) : o.live = false := by
+  have hext : LogExtends ((Arena.new n).run ops).ctx ((Arena.new n).run (ops ++ later)).ctx := by
+    rw [run_append]
+    exact run_log_extends later _ (fun hal => inv_run n ops hal)
+  obtain ⟨evs, he⟩ := hext
+  exact (linv_run n (ops ++ later)).droppedDead i (by rw [he]; exact List.mem_append_right _ h) o ho
+
+/-! "A weak pointer never keeps its target alive" is `C02.exact_statement` (reachability there is
+    strong only) and is pending with it. -/
 
 /-! ### Non-vacuity -/
 
